@@ -248,7 +248,7 @@ func recordMain(args []string) {
 				s.A = []int{pick(), pick()}
 			case -1:
 				// re-activation of the temporary as variable i (only once it holds a result, mostly)
-				if !written[r] && rng.Intn(4) != 0 {
+				if !written[r] {
 					continue
 				}
 				s.P = []float64{float64(1 + rng.Intn(n))}
